@@ -229,6 +229,19 @@ def shape_of(f, all_names):
     base = (v + ".baseFile") if isfile else (v + ".baseFS")
     trv = (v + ".vfs") if isfile else v
     guards = []
+    if f["name"] in ("FromBasePath", "fromBasePath") and not isfile:
+        # the lenient reverse translation must stand aside exactly where the strict one panics: both bodies
+        # are recognised (fail closed) and the PREDICATE of their leading guard is recorded; the table
+        # obligation (BasePathTable.guards_consistent) requires the two predicates to be the same
+        pn = params[0][0] if params else ""
+        tail = r"panic\(.*\)" if f["name"] == "FromBasePath" else r"return " + pn
+        m = re.match(r"^if !(.+?) \{ " + tail + r" \} (.+)$", body)
+        if not m or not pn:
+            raise Shape("leading guard of %s not recognised: %s" % (f["name"], body[:120]))
+        if f["name"] == "fromBasePath" and m.group(2) != "return %s.FromBasePath(%s)" % (v, pn):
+            raise Shape("fromBasePath does not end with FromBasePath of its argument: " + m.group(2)[:120])
+        pred = re.sub(r"\b" + pn + r"\b", "_", m.group(1))
+        return ("Guarded", pred), guards
     if f["name"] in TRANSLATION and not isfile:
         return "Translation", guards
     # early returns on an empty parameter that do not touch the base
@@ -348,7 +361,7 @@ def coq_shape(sh):
         return sh
     if sh[0] == "Forward":
         return "Forward %s [%s] [%s]" % (coq_str(sh[1]), "; ".join(coq_arg(a) for a in sh[2]), "; ".join(sh[3]))
-    if sh[0] in ("Generic", "Self", "Unknown"):
+    if sh[0] in ("Generic", "Self", "Unknown", "Guarded"):
         return "%s %s" % (sh[0], coq_str(sh[1]))
     raise ValueError(sh)
 
